@@ -76,7 +76,8 @@ CLAIMS = {
         text="Coq theorems with the random draws universally quantified (every permutation = every seed): dense 'unique' wiring has "
              "a<b<n, no repeated pair, exactly out_dim pairs, and infeasible sizes are rejected; dense 'random' wiring is in range "
              "and covers every input when 2*out_dim >= in_dim; conv 'random-unique' pairs are distinct with i<j<P and distinct "
-             "positions; tree levels are full binary (left++right is a permutation of the level's nodes). The hand-written model is "
+             "positions; tree levels are full binary (left++right is a permutation of the level's nodes) and a kernel of tree_depth d has "
+             "2^(d+1)-1 gates on 2^(d+1) window positions; exact characterisation of the inputs 'unique' wiring uses. The hand-written model is "
              "tied by exact equality with layer.indices / kernel_pairs of real constructors under recorded draws.",
         design_ref="DESIGN.md section 6 C13",
         note="Coq kernel (closed theorems); torch.randperm/randint return permutations / in-range values (trusted); the slice-level "
@@ -248,7 +249,8 @@ CLAIMS = {
         category="proof",
         text="Coq theorems over R on the model sigmoid((x + ln(u+1e-20) - ln(1-u+1e-20))/tau): sample in (0,1), hard sample in {0,1}; "
              "hard = 1 iff x + noise > tau*logit(t), which at the default threshold does not mention tau; without the guard the event "
-             "is u in (1 - logistic(x), 1), an interval of length logistic(x); reproducibility; tau <= 0 rejected (guards present); "
+             "is u in (1 - logistic(x), 1), an interval of length logistic(x); reproducibility; tau <= 0 rejected (guards present); raw Gumbel "
+             "modes: the sampled gate is the winner of the exponential race with rates exp(w_i), whatever the temperature; "
              "layers: gumbel_hard = one gate, gumbel_soft = valid mixture. Partial: uniformity of torch.rand_like trusted. Tied with the "
              "uniform draw supplied by the harness: float64 mirror, interval lemmas, exact hard events, temperature independence, seeds, "
              "fixed-seed frequencies (6 sigma), layers in both Gumbel modes.",
